@@ -68,7 +68,7 @@ func (w *World) findProcRolesUncached() *procRoles {
 			{
 				if st, ok := in.(*ssa.Store); ok {
 					if fa, ok := st.Addr.(*ssa.FieldAddr); ok && isFieldOf(fa, pr.ctxT, "message") {
-						if strings.HasSuffix(w.pathOf(st.Val), ".Msg") {
+						if vp := w.pathOf(st.Val); strings.HasSuffix(vp, ".Msg") || isParamPath(vp) {
 							if pr.deliverFn != nil && pr.deliverFn != fn {
 								bad("two delivery functions: %s, %s", fname(pr.deliverFn), fname(fn))
 							}
@@ -1512,4 +1512,18 @@ func checkApplyMW(w *World, r *Report, pr *procRoles) {
 	okLoop := len(pos) > 0 && g.OnlyVia(pos, g.idx[call])
 	// and the loop is left only when i < 0: all returns are on the negative edge
 	r.Check(okLoop, "C13.R2", key, what, site, "the loop bound is not i >= 0: a middleware is skipped (e.g. i > 0 drops the first one)")
+}
+
+
+// isParamPath: the access path of a plain parameter (P1, P2, ...).
+func isParamPath(p string) bool {
+	if len(p) < 2 || p[0] != 'P' {
+		return false
+	}
+	for _, c := range p[1:] {
+		if c < '0' || c > '9' {
+			return false
+		}
+	}
+	return true
 }
